@@ -35,6 +35,7 @@ class Run:
         self.chdir = None
         self.cfg = None
         self.errors = []  # (key, detail) lock-step disagreements
+        self.kept_exceptions = []
 
 
 def execute(cfg, ops, seed, top, snapshot_rejects=False, after_each=None, sparse_getters=False):
@@ -99,6 +100,7 @@ def execute(cfg, ops, seed, top, snapshot_rejects=False, after_each=None, sparse
             except Exception as e:  # noqa: BLE001
                 rec["status"] = "exc"
                 rec["exc"] = type(e).__name__
+                run.kept_exceptions.append(e)  # the caller keeps the error object (and its traceback) around
             rec["getters_before"] = before
             rec["getters"] = rf.getters(w) if ask else None
             if reason:
